@@ -1,6 +1,7 @@
 package varlink
 
 import (
+	"errors"
 	"io"
 	"net"
 	"os"
@@ -37,11 +38,17 @@ func (p PipeCon) SetDeadline(t time.Time) error {
 }
 
 func (p PipeCon) SetReadDeadline(t time.Time) error {
-	return nil
+	if d, ok := p.reader.(interface{ SetReadDeadline(time.Time) error }); ok {
+		return d.SetReadDeadline(t)
+	}
+	return errors.New("varlink: bridge pipe does not support read deadlines")
 }
 
 func (p PipeCon) SetWriteDeadline(t time.Time) error {
-	return nil
+	if d, ok := p.writer.(interface{ SetWriteDeadline(time.Time) error }); ok {
+		return d.SetWriteDeadline(t)
+	}
+	return errors.New("varlink: bridge pipe does not support write deadlines")
 }
 
 func (p PipeCon) Close() error {
